@@ -7,6 +7,14 @@ EXTENDS Aggregate
 CONSTANTS MaxVecs, MaxLen2Vecs
 Entries == Flags \cup {0, 7, MASKED}
 
+\* COMPLETE (not bounded) pointwise laws: the aggregate at one position depends only on the SET of entries there,
+\* and there are only 2^8 such sets -- so these hold for any number of vectors of any length.
+ASSUME \A S \in SUBSET Entries : AggPoint(S) \in Flags
+ASSUME \A S, T \in (SUBSET Entries) \ {{}} :
+           /\ AggPoint(S \cup T) = AggPoint({AggPoint(S), AggPoint(T)})          \* aggregating aggregates
+           /\ \A f \in (S \cup T) \cap Flags : Prec(f) <= Prec(AggPoint(S \cup T))  \* never better than the worst
+ASSUME \A S \in SUBSET Entries : AggPoint(S) = AggPoint(S \cap Flags)             \* masked / non-flag entries are ignored
+
 Perms(n) == { p \in [1..n -> 1..n] : \A a, b \in 1..n : p[a] = p[b] => a = b }
 
 MCAInit == AInit
